@@ -45,6 +45,21 @@ def extra(rng, rec):
     r = rng.random()
     y = lambda: rng.choice(["1999", "2005", "1850", "1975", "2011"])  # noqa
     bare = lambda: f"{gen.num(rng)} {gen.rep(rng)} {gen.num(rng)}"  # noqa
+    if r < 0.08:   # a long stretch of ordinary words (around the 300-character scan cap) before the citation
+        lead = gen.filler(rng, rng.randint(270, 330)).capitalize()
+        form = rng.random()
+        if form < 0.4:
+            return f"{lead} {gen.name(rng)}, {bare()}, {gen.num(rng)} ({y()})."
+        if form < 0.7:
+            return f"{lead} {gen.name(rng)}, {bare().rsplit(' ', 1)[0]} at {gen.num(rng)}."
+        return f"{lead} {gen.name(rng)}, supra, at {gen.num(rng)}."
+    if r < 0.14:   # a multi-word party name repeated with other white space
+        a = rng.choice(["Bell Atlantic Corp.", "Theatre Enterprises", "Acme Widget Company", "De la Cruz", "Mar. Overseas Corp."])
+        ws = rng.choice(["  ", "\n", " \n", "\t"])
+        side = rng.random() < 0.5
+        p1, p2 = (a, gen.name(rng)) if side else (gen.name(rng), a)
+        return (f"{p1} v. {p2}, {bare()} ({y()}). The court in {a.replace(' ', ws)} at {gen.num(rng)} agreed; "
+                f"{a.replace(' ', ws, 1)} at {gen.num(rng)}.")
     if r < 0.25:   # consecutive bare citations with different years
         s = f"{bare()} ({y()}). {rng.choice(['Then came', 'See also', 'And', 'But'])} {bare()} ({y()}); {bare()}"
     elif r < 0.4:  # parallel with one name
